@@ -35,7 +35,16 @@ def handle (op : String) (c i : Json) : Except String (Json × String) := do
   | "dlc" =>
     let f ← DC.frame (← J.key c "f")
     let strat ← J.str (← J.key c "strategy")
-    let r := if strat == "force" then f.forceDlc.size else f.calcDlc.size
+    -- the frame stands in a matrix between other frames
+    let others (k : String) : Except String (List Frame) :=
+      match c.getObjVal? k with
+      | .ok a => do (← J.arr a).mapM DC.frame
+      | .error _ => pure []
+    let pre ← others "before"
+    let post ← others "after"
+    let r := match (recalcDlc strat (pre ++ f :: post))[pre.length]? with
+      | some g => g.size
+      | none => 0
     let got ← J.nat i
     let need := Spec.neededBytes (f.sigs.map DC.specSig)
     let want := if strat == "force" then need else max f.size need
